@@ -42,10 +42,9 @@ CFG = {
                   "EVERY walk cap, predecessor fallback, u32 clamps, wrapping usize arithmetic): the cache invariant is "
                   "preserved by every public call; every answer equals the stateless naive look-behind scan of the text; "
                   "lifted by induction to arbitrary query histories from any invariant-satisfying cache state "
-                  "(history_irrelevant); to_offset/line_start/line_count exact; in-bounds round trip. Partial: "
-                  "to_offset_exact_partial requires line_start + column <= 2^64 (the unchecked `+` wraps beyond that: "
-                  "refutation witness proved and replayed, finding F10); to_line_column at offset = usize::MAX has an "
-                  "unrepresentable column and is excluded (offset < 2^64 - 1).",
+                  "(history_irrelevant); to_offset (checked_add, every line and column), line_start, line_count exact; "
+                  "in-bounds round trip. Only exclusion: to_line_column at offset = usize::MAX, whose column on a "
+                  "one-line text (2^64) is not representable (theorems require offset < 2^64 - 1).",
     "level_note": "ASSUMES C03: the Elias-Fano `starts` sequence is modelled abstractly as the List Nat it encodes, with "
                   "EliasFano::len/get/predecessor given by their plain-list meaning (length, xs[i]?, last index whose element "
                   "is <= v); their exactness on the real structure is property C03, not re-proved here (the correspondence "
@@ -60,7 +59,8 @@ CFG = {
                    "SuccinctlyVerif/Model/Lines.lean", "SuccinctlyVerif/Spec/Lines.lean"],
     "generated": ["C12:"],
     "required_theorems": ["SV.Props.C12.history_irrelevant", "SV.Props.C12.cache_inv_step",
-                          "SV.Props.C12.answer_exact", "SV.Props.C12.round_trip"],
+                          "SV.Props.C12.answer_exact", "SV.Props.C12.round_trip",
+                          "SV.Props.C12.to_offset_exact"],
     "nontrivial": _c12_nontrivial,
     "shrink": _c12_shrink,
     "rule": "request = one text + one whole query history on one index; distinct request lines whose text contains a "
